@@ -36,11 +36,17 @@ structure Cfg where
   /-- input fields ADDED by an extension are passed through `extend_type` (C11-S1); otherwise they reference the
       type object of the schema being extended -/
   extInputFieldExtended : Bool
+  /-- `Schema.clone` copies the resolver registries with `merge_resolvers` (fresh inner per-type dicts); `false`: the outer
+      maps are copied with `dict.update` and the inner dicts are SHARED with the source -/
+  cloneRegsDeep : Bool
   deriving Repr, DecidableEq
 
 /-- the code with every proposed fix applied -/
-def Cfg.fixed : Cfg := ⟨true, true, true, true, true, true, true, true, true, true, true, true, true, true, true⟩
+def Cfg.fixed : Cfg := ⟨true, true, true, true, true, true, true, true, true, true, true, true, true, true, true, true⟩
 /-- the code of the unchanged tree (snapshot 2541ded) -/
-def Cfg.legacy : Cfg := ⟨false, false, false, false, false, false, false, false, false, false, false, false, false, false, false⟩
+def Cfg.legacy : Cfg := ⟨false, false, false, false, false, false, false, false, false, false, false, false, false, false, false, true⟩
+
+/-- the fixed code, except that `clone` copies the registries shallowly (the class of a seeded change) -/
+def Cfg.shallowRegs : Cfg := { Cfg.fixed with cloneRegsDeep := false }
 
 end PyGql.Heap
